@@ -72,6 +72,7 @@ func OpenWALStorage(cfg WALStorageConfig) (*WALStorage, error) {
 	}
 
 	var replayPtr manifest.RaftLogPointer
+	var firstSeg uint32 // oldest segment that still holds a record of this group
 
 	if err := cfg.WAL.Replay(func(info wal.EntryInfo, payload []byte) error {
 		switch info.Type {
@@ -84,6 +85,9 @@ func OpenWALStorage(cfg WALStorageConfig) (*WALStorage, error) {
 			}
 			if gid != cfg.GroupID || len(entries) == 0 {
 				return nil
+			}
+			if firstSeg == 0 {
+				firstSeg = info.SegmentID
 			}
 			if err := ws.mem.Append(entries); err != nil {
 				return err
@@ -102,6 +106,9 @@ func OpenWALStorage(cfg WALStorageConfig) (*WALStorage, error) {
 			}
 			if gid != cfg.GroupID {
 				return nil
+			}
+			if firstSeg == 0 {
+				firstSeg = info.SegmentID
 			}
 			if err := ws.mem.SetHardState(st); err != nil {
 				return err
@@ -155,6 +162,14 @@ func OpenWALStorage(cfg WALStorageConfig) (*WALStorage, error) {
 	}
 
 	if isPointerAhead(replayPtr, ws.pointer) {
+		if replayPtr.TruncatedIndex < ws.pointer.TruncatedIndex {
+			// compactions leave no WAL record: keep the manifest's truncation point
+			replayPtr.TruncatedIndex, replayPtr.TruncatedTerm = ws.pointer.TruncatedIndex, ws.pointer.TruncatedTerm
+			replayPtr.SegmentIndex, replayPtr.TruncatedOffset = ws.pointer.SegmentIndex, ws.pointer.TruncatedOffset
+		}
+		if replayPtr.SegmentIndex == 0 {
+			replayPtr.SegmentIndex = uint64(firstSeg)
+		}
 		if err := ws.updatePointer(replayPtr); err != nil {
 			return nil, err
 		}
@@ -373,6 +388,10 @@ func (ws *WALStorage) updatePointer(ptr manifest.RaftLogPointer) error {
 		return nil
 	}
 	ptr.GroupID = ws.groupID
+	if ptr.SegmentIndex == 0 {
+		// never truncated: the group's log starts in the segment of its first record
+		ptr.SegmentIndex = uint64(ptr.Segment)
+	}
 	if ws.pointer == ptr {
 		return nil
 	}
